@@ -32,7 +32,7 @@ FLOORS = {
     'thorough': {'evaluations': 80000, 'json_compared': 25000, 'failures_judged': 20000, 'subprocess_runs': 1200,
                  'distinct_nontrivial': 5000, 'nonfinite_json_compared': 3000},
 }
-BUDGET = {'quick': (5000, 64), 'thorough': (150000, 2000)}
+BUDGET = {'quick': (5000, 64), 'thorough': (70000, 1000)}
 TIMEOUT = {'quick': 600, 'thorough': 5400}
 
 
